@@ -177,7 +177,8 @@ def cache_component_js_vars(comp_cls: Type["Component"], js_vars: Dict) -> Optio
 
 
 def wrap_component_js(comp_cls: Type["Component"], content: str) -> str:
-    if "</script" in content:
+    # NOTE: HTML end tags are case-insensitive, so `</SCRIPT>` would close the element too
+    if "</script" in content.lower():
         raise RuntimeError(
             f"Content of `Component.js` for component '{comp_cls.__name__}' contains '</script>' end tag. "
             "This is not allowed, as it would break the HTML."
@@ -227,7 +228,8 @@ def cache_component_css_vars(comp_cls: Type["Component"], css_vars: Dict) -> Opt
 
 
 def wrap_component_css(comp_cls: Type["Component"], content: str) -> str:
-    if "</style" in content:
+    # NOTE: HTML end tags are case-insensitive, so `</STYLE>` would close the element too
+    if "</style" in content.lower():
         raise RuntimeError(
             f"Content of `Component.css` for component '{comp_cls.__name__}' contains '</style>' end tag. "
             "This is not allowed, as it would break the HTML."
